@@ -90,7 +90,24 @@ META = {
         explanation="Class clauses proved (unbounded in tonic spelling and octave count); recognition bounded (2.4k note sets "
                     "incl. every scale's own set, its one-note-removed subsets and supersets).",
     ),
+    "C09": dict(
+        claimed=True, level="proof",
+        technique="contract-based deductive verification (ints unbounded; floats as mathematical reals, tagged); termination by loop variant",
+        level_text="meter: valid_beat_duration is proved equal to 'is one of 1,2,4,8,...' for ALL integers and, as reals, all floats, "
+                   "INCLUDING TERMINATION (loop variant |r| with the invariant that r is integral after the first halving); "
+                   "is_valid/is_simple/is_compound/is_asymmetrical are proved equal to the stated predicates. value: the tuplet "
+                   "helpers equal the ratio formula, dots(v, n) for n = 0..4, add/subtract are sum/difference of durations, and "
+                   "subtract(add(a,b),b) == a is a lemma over the two contracts - all in real arithmetic. determine: every value "
+                   "within 1% of an undotted or single-dotted base value is analysed as that value (all reals in the 20 ranges); "
+                   "the 80 constructed values (10 bases x dots 0..4, triplet, quintuplet, septuplet) are each evaluated through "
+                   "the engine on the real bodies with CPython float arithmetic (complete finite split).",
+        level_note=TB + " float-as-real: IEEE rounding is NOT modelled in the symbolic obligations (tagged in the evidence); the "
+                        "run-time battery re-checks the same contracts with real floats (inf, nan, 2^2000 included).",
+        explanation="All clauses proved under float-as-real; two former deviations repaired in /repo (6eeb4d9, 58f369d).",
+        assumptions=["float-as-real: symbolic float obligations are discharged over the reals; rounding is covered only by "
+                     "the concrete vocabulary cases and the run-time battery"],
+    ),
 }
 
 _NOT_YET = "not yet brought under contract in this build step (see DESIGN.md §9 for the plan); nothing is claimed"
-NOT_APPLICABLE = dict(("C%02d" % i, _NOT_YET) for i in range(7, 21))
+NOT_APPLICABLE = dict(("C%02d" % i, _NOT_YET) for i in [7, 8] + list(range(10, 21)))
